@@ -234,7 +234,9 @@ func ruleC04(c *Ctx) {
 		alpha := sym.Field(fc, 3, u8t)
 		a0 := sym.Bin(tokEQL, alpha, sym.Const(constant.MakeInt64(0), u8t), types.Typ[types.Bool])
 		d0 := sym.Ite(P, a0, sym.Ite(G, sym.Not(I), sym.True))
-		hT := sym.Conv(sym.Bin(tokSUB, sym.Atom("init:param:z.1.1.1", types.Typ[types.Int]), sym.Atom("init:param:z.1.0.1", types.Typ[types.Int]), types.Typ[types.Int]), f32)
+		// the raster height: r.Max.Y - r.Min.Y of the target rectangle as the object holds it (wherever the field sits)
+		rp := r.fieldPath("r").String()
+		hT := sym.Conv(sym.Bin(tokSUB, sym.Atom("init:param:z"+rp+".1.1", types.Typ[types.Int]), sym.Atom("init:param:z"+rp+".0.1", types.Typ[types.Int]), types.Typ[types.Int]), f32)
 		lodOK := sym.And(sym.Bin(tokLEQ, sym.Atom("lod0", f32), hT, nil), sym.Bin(tokLSS, hT, sym.Atom("lod1", f32), nil))
 		want := sym.Or(d0, sym.Not(lodOK))
 		got := in.LoadAt(mem, z, r.fieldPath("disabled"))
